@@ -8,7 +8,7 @@
    over the indicator engine. *)
 From Coq Require Import ZArith List String Bool Lia.
 From Hexital Require Import Base.Prelude Base.Num Model.Manager Model.Candle Model.Readings Model.Engine
-  Proofs.CollapseProofs Proofs.FillProofs Proofs.CausalProofs Proofs.TrimProofs Proofs.TrimCompose Proofs.FillCompose Proofs.FillEngine Proofs.FillTrim Proofs.EngineProofs Proofs.TrimRun Inst.ZInst.
+  Proofs.CollapseProofs Proofs.FillProofs Proofs.CausalProofs Proofs.TrimProofs Proofs.TrimCompose Proofs.FillCompose Proofs.FillEngine Proofs.FillTrim Proofs.EngineProofs Proofs.TrimWin Proofs.TrimRun Inst.ZInst.
 Import ListNotations.
 Local Open Scope Z_scope.
 
@@ -114,8 +114,22 @@ Theorem C15_calculate_unchanged_by_trim_leaf :
   Forall (has_key O I) pre -> Forall (has_key O I) S -> (2 <= List.length S)%nat -> W <= zlen S ->
   Forall (fresh O I) new ->
   calculate O I ((pre ++ S) ++ new) = (r <- calculate O I (S ++ new) ;; Ok (pre ++ r)).
-Proof. intros O I W HW Hp Hl Hpu pre S new H1 H2 H3 H4 H5. eapply calculate_after_trim; eassumption. Qed.
+Proof. intros O I W HW Hp Hl Hpu pre S new H1 H2 H3 H4 H5. eapply calculate_after_trim_rec; eassumption. Qed.
 Print Assumptions C15_calculate_unchanged_by_trim_leaf.
+
+(* the same for the window indicators HL (look-back = period), Donchian (period - 1) and AROON
+   (period): their extremes, bar offsets and warm-up tests commute with dropping the prefix *)
+Theorem C15_calculate_unchanged_by_trim_window_indicators :
+  forall (O : NumOps) (I : ind O) (W : Z),
+  lookback_win O (i_kind O I) = Some W -> period_ok_win O (i_kind O I) ->
+  i_subs O I = [] /\ i_managed O I = [] ->
+  (forall rec st i, calc_reading O rec I st i = (v <- pure_calc O I st i ;; Ok (v, st))) ->
+  forall (pre S new : store O),
+  Forall (has_key O I) pre -> Forall (has_key O I) S -> (2 <= List.length S)%nat -> W <= zlen S ->
+  Forall (fresh O I) new ->
+  calculate O I ((pre ++ S) ++ new) = (r <- calculate O I (S ++ new) ;; Ok (pre ++ r)).
+Proof. intros O I W HW Hp Hl Hpu pre S new H1 H2 H3 H4 H5. eapply calculate_after_trim_win; eassumption. Qed.
+Print Assumptions C15_calculate_unchanged_by_trim_window_indicators.
 
 (* SMA(2) over Z: five calculated candles, the first two trimmed away, two new candles *)
 Local Open Scope string_scope.
